@@ -6,6 +6,7 @@ pub mod head;
 pub mod headers;
 pub mod response;
 pub mod server;
+pub mod sse;
 
 pub fn run(args: &Args, out: Out) {
     match args.driver.as_str() {
@@ -22,6 +23,9 @@ pub fn run(args: &Args, out: Out) {
         "limits" => exchange::run_limits(args, out),
         "tokens-enum" => server::run_tokens(args, out),
         "server-stress" => server::run_stress(args, out),
+        "sse-replay" => sse::run_replay(args, out),
+        "sse-content" => sse::run_content(args, out),
+        "sse-threads" => sse::run_threads(args, out),
         "headers-enum" => headers::run_enum(args, out),
         "ascii-ctors" => headers::run_ctors(args, out),
         "framing-gen" => framing::run_gen(args, out),
